@@ -220,6 +220,60 @@ async fn server_sizes(rep: &mut Report, sizes: &[usize]) {
     h.abort();
 }
 
+// ---------------------------------------------------------------- target address shapes
+
+/// The same loopback target named in every way an initial request can name it (IPv4, IPv4-mapped IPv6, IPv6 loopback,
+/// a domain name): datagrams reach it and its replies come back.
+async fn server_target_shapes(rep: &mut Report) {
+    let t4 = UdpSocket::bind("127.0.0.1:0").await.unwrap();
+    let p4 = t4.local_addr().unwrap().port();
+    let t6 = UdpSocket::bind("[::1]:0").await.ok();
+    let mut shapes: Vec<(String, Vec<u8>, bool)> = vec![];
+    shapes.push(("IPv4 127.0.0.1".into(), initial_request(SocketAddr::new("127.0.0.1".parse().unwrap(), p4)), false));
+    shapes.push(("IPv4-mapped ::ffff:127.0.0.1".into(), initial_request(SocketAddr::new("::ffff:127.0.0.1".parse().unwrap(), p4)), false));
+    {
+        let mut v = vec![1u8, 3, 9];
+        v.extend_from_slice(b"localhost");
+        v.extend_from_slice(&p4.to_be_bytes());
+        shapes.push(("domain localhost".into(), v, false));
+    }
+    if let Some(s6) = &t6 {
+        shapes.push(("IPv6 ::1".into(), initial_request(s6.local_addr().unwrap()), true));
+    }
+    for (si, (name, req, v6)) in shapes.into_iter().enumerate() {
+        let sock = if v6 { t6.as_ref().unwrap() } else { &t4 };
+        let (st, feed, mut out) = hand_stream(40 + si as u32);
+        let h = tokio::spawn(handle_udp_over_tcp(st));
+        let _ = feed.send(Bytes::from(req));
+        for k in 0..3u32 {
+            rep.case(Some(&format!("server side, target named as {name}, datagram {k}")));
+            let d = dgram(7000 + si as u32 * 10 + k, 1 + 700 * k as usize);
+            let _ = feed.send(Bytes::from(framed(&d)));
+            let Some((got, from)) = recv_one(sock, 1500).await else {
+                // "localhost" may resolve to ::1 first: then the IPv4 socket legitimately sees nothing
+                if name == "domain localhost" {
+                    break;
+                }
+                rep.violation("C15:datagram-lost", &format!("server side, target named as {name}: datagram {k} ({} bytes) never reached the target", d.len()), json!({"engine": "SEMI", "side": "server", "target_shape": name}));
+                break;
+            };
+            if got != d {
+                rep.violation("C15:datagram-altered", &format!("server side, target named as {name}: datagram {k} arrived as {} bytes", got.len()), json!({"engine": "SEMI", "side": "server", "target_shape": name}));
+                break;
+            }
+            let back = dgram(7500 + si as u32 * 10 + k, 2 + 300 * k as usize);
+            let _ = sock.send_to(&back, from).await;
+            let r = collect_framed(&mut out, 1, 1500).await;
+            if r.len() != 1 || r[0] != back {
+                rep.violation("C15:return-datagram-not-identical", &format!("server side, target named as {name}: the reply to datagram {k} came back as {:?}", r.iter().map(|x| x.len()).collect::<Vec<_>>()), json!({"engine": "SEMI", "side": "server", "target_shape": name}));
+                break;
+            }
+        }
+        drop(feed);
+        h.abort();
+    }
+}
+
 // ---------------------------------------------------------------- several associations at once
 
 /// Two (three) concurrent associations on one server, to the same target and to different targets: every reply comes
@@ -598,6 +652,7 @@ pub fn run(tier: Tier) -> i32 {
         let csizes: Vec<usize> = if thorough { sizes.iter().copied().filter(|s| s % 3 == 1 || *s < 300 || *s > 65000).collect() } else { sizes.clone() };
         client_side(&mut rep, &csizes, thorough).await;
         concurrent_associations(&mut rep).await;
+        server_target_shapes(&mut rep).await;
         end_to_end(&mut rep, false).await;
         end_to_end(&mut rep, true).await;
     });
@@ -605,5 +660,5 @@ pub fn run(tier: Tier) -> i32 {
     fragments_with_gaps(&mut rep, thorough);
     rep.sections.insert("sizes".into(), json!({"count": sizes.len(), "min": sizes.first(), "max": sizes.last()}));
     rep.sample(json!({"case": "server side, byte stream [initial request][len=5][..][len=1][.][len=2][..] delivered cut at [9, 14]"}));
-    rep.finish("IX/SEMI: datagram sizes (quick: boundary sizes incl. 65505..65507; thorough: every size 1..=65507) in both directions through the real server-side and client-side relay loops over real loopback UDP sockets in lock-step; every 1-cut and 2-cut split (and byte-at-a-time) of 2- and 3-datagram length-prefixed streams incl. cuts inside the initial request; bursts of datagrams back-to-back / in one stream chunk in both directions; three concurrent associations on one server (two to the same target) with replies attributed per association; two-piece deliveries with 0..301 s (thorough ..3601 s) of silence between the pieces (clock of a current-thread runtime jumped); end to end through create_udp_proxy and the real handler for an IPv4 and an IPv6 target; non-trivial = distinct size / cut pattern")
+    rep.finish("IX/SEMI: datagram sizes (quick: boundary sizes incl. 65505..65507; thorough: every size 1..=65507) in both directions through the real server-side and client-side relay loops over real loopback UDP sockets in lock-step; every 1-cut and 2-cut split (and byte-at-a-time) of 2- and 3-datagram length-prefixed streams incl. cuts inside the initial request; bursts of datagrams back-to-back / in one stream chunk in both directions; one loopback target named as IPv4 / IPv4-mapped IPv6 / IPv6 / domain; three concurrent associations on one server (two to the same target) with replies attributed per association; two-piece deliveries with 0..301 s (thorough ..3601 s) of silence between the pieces (clock of a current-thread runtime jumped); end to end through create_udp_proxy and the real handler for an IPv4 and an IPv6 target; non-trivial = distinct size / cut pattern")
 }
